@@ -274,6 +274,15 @@ def direct_interrupt_part(chk, exprs):
         return o_kill(pid, fn)
     skill._kill = kill_hook
     allp = []
+    # whatever the code under test does with the handler of SIGTERM (install once, restore, forget): a SIGTERM that reaches
+    # this process unhandled must not end the check - it is recorded and reported
+    unhandled = []
+
+    def guard(signum, frame):
+        unhandled.append(signum)
+    # (ReBench installs its handler once per process: a handler that is already there is left alone)
+    if signal.getsignal(signal.SIGTERM) in (signal.SIG_DFL, None):
+        signal.signal(signal.SIGTERM, guard)
     try:
         combos = [(signal.SIGINT, 1, -1, False), (signal.SIGTERM, 3, 20, False), (signal.SIGINT, 2, 20, False),
                   # the signal arrives while the process is being started: after the fork, before the starting thread goes on
@@ -313,6 +322,14 @@ def direct_interrupt_part(chk, exprs):
             time.sleep(1.0 if at_start else 0.05)
             pids = read_pids(W, ident)
             allp += [p for p, _, _ in pids]
+            if unhandled:
+                chk.violation("C16 SIGTERM during a benchmark process is handled by ReBench (the tree is killed, the interrupt raised), "
+                              "also when it is not the first process of the session", dict(case, process_of_the_session=n + 1),
+                              "handled", "the signal reached the process with ReBench's handler not installed")
+                del unhandled[:]
+                if not isinstance(got, str):
+                    # run() is still waiting for the tree; it was not told to stop - end the tree ourselves
+                    pass
             if got != "KeyboardInterrupt":
                 chk.violation("C16 an interrupt during a benchmark process is raised again after the process was dealt with", case,
                               "KeyboardInterrupt", got)
@@ -323,6 +340,8 @@ def direct_interrupt_part(chk, exprs):
             chk.case(("direct-interrupt", n))
             chk.count("direct_interrupted")
     finally:
+        if signal.getsignal(signal.SIGTERM) is guard:
+            signal.signal(signal.SIGTERM, signal.SIG_DFL)
         skill._kill = o_kill
         cleanup(allp)
         shutil.rmtree(W, ignore_errors=True)
